@@ -32,12 +32,51 @@ def _name_only_pred(lam):
     return True
 
 
+def _norm_name_expr(b, pname=None, namevar=None):
+    """dump of b with `p[0]` / the unpacked name variable replaced by a placeholder; None if b uses anything else of the item"""
+    class R(ast.NodeTransformer):
+        ok = True
+
+        def visit_Subscript(self, n):
+            if pname and isinstance(n.value, ast.Name) and n.value.id == pname and isinstance(n.slice, ast.Constant) and n.slice.value == 0:
+                return ast.Name(id="__NAME__", ctx=ast.Load())
+            return self.generic_visit(n)
+
+        def visit_Name(self, n):
+            if namevar and n.id == namevar:
+                return ast.Name(id="__NAME__", ctx=ast.Load())
+            if pname and n.id == pname:
+                R.ok = False
+            return n
+    import copy
+    R.ok = True
+    t = R().visit(copy.deepcopy(b))
+    return dump(t) if R.ok else None
+
+
 def _pred_core(lam):
     b = lam.body
     neg = False
     while isinstance(b, ast.UnaryOp) and isinstance(b.op, ast.Not):
         b, neg = b.operand, not neg
-    return dump(b).replace(repr(lam.args.args[0].arg), "'P'"), neg
+    return _norm_name_expr(b, pname=lam.args.args[0].arg), neg
+
+
+def _comp_pred_core(target, cond):
+    """(core, negated) of a comprehension condition that depends on the item's name only, else None"""
+    b, neg = cond, False
+    while isinstance(b, ast.UnaryOp) and isinstance(b.op, ast.Not):
+        b, neg = b.operand, not neg
+    if isinstance(target, ast.Tuple) and len(target.elts) == 2 and isinstance(target.elts[0], ast.Name):
+        other = {n.id for n in ast.walk(target.elts[1]) if isinstance(n, ast.Name)}
+        if {n.id for n in ast.walk(b) if isinstance(n, ast.Name)} & other:
+            return None
+        core = _norm_name_expr(b, namevar=target.elts[0].id)
+    elif isinstance(target, ast.Name):
+        core = _norm_name_expr(b, pname=target.id)
+    else:
+        return None
+    return (core, neg) if core is not None else None
 
 
 def _never_none(prog, fe, at, depth=0):
@@ -138,6 +177,7 @@ def rule_order(prog, rep, tier, only=None):
         if not sources:
             raise AnalysisError("ORDER: %s no longer iterates %s['params'].items()" % (q, irp))
         filters = []  # (lambda, node) name-only partitions seen
+        comp_filters = []  # ((core, negated), node)
         n_seq = 0
         for s in sources:
             # climb the wrappers
@@ -175,8 +215,12 @@ def rule_order(prog, rep, tier, only=None):
                         break
                 elif isinstance(p, ast.comprehension):
                     comp = p._parent
-                    if p.ifs:
-                        verdict = "comprehension condition over the parameter items: %s" % src(p.ifs[0], 60)
+                    for cond in p.ifs:
+                        core = _comp_pred_core(p.target, cond)
+                        if core is None:
+                            verdict = "comprehension condition that looks beyond the parameter name: %s" % src(cond, 60)
+                        else:
+                            comp_filters.append((core, comp))
                     fe = comp
                     chain.append("comprehension")
                     break
@@ -197,7 +241,15 @@ def rule_order(prog, rep, tier, only=None):
                     for m in uses:
                         n_seq += 1
                         self_check(prog, rep, fi, q, m.args[0], m, ctor, slot_of, "map over %s" % var)
-                    if uses:
+                    cuses = [m for m in ast.walk(fi.node) if isinstance(m, (ast.ListComp, ast.GeneratorExp)) and len(m.generators) == 1
+                             and isinstance(m.generators[0].iter, ast.Name) and m.generators[0].iter.id == var]
+                    for m in cuses:
+                        n_seq += 1
+                        if m.generators[0].ifs:
+                            rep.violation(Finding("ORDER", q, "sequence:%s" % src(m, 60), "condition in a comprehension over the per-parameter sequence %s: %s" % (var, src(m.generators[0].ifs[0], 50)), loc(prog, m)))
+                        else:
+                            self_check(prog, rep, fi, q, m, m, ctor, slot_of, "comprehension over %s" % var)
+                    if uses or cuses:
                         continue
             if verdict:
                 n_seq += 1
@@ -209,27 +261,69 @@ def rule_order(prog, rep, tier, only=None):
                 self_check(prog, rep, fi, q, fe, s, ctor, slot_of, "+".join(chain))
         # partitions must come in complementary pairs
         cores = {}
+        first_node = filters[0][1] if filters else (comp_filters[0][1] if comp_filters else None)
         for lam, node in filters:
             core, neg = _pred_core(lam)
+            cores.setdefault(core, set()).add(neg)
+        for (core, neg), node in comp_filters:
             cores.setdefault(core, set()).add(neg)
         for core, negs in cores.items():
             if negs != {True, False}:
                 rep.violation(Finding("ORDER", q, "partition-without-complement",
-                                      "%s filters the parameters by name without consuming the complement: the filtered-out parameters are dropped" % q, loc(prog, filters[0][1])))
+                                      "%s filters the parameters by name without consuming the complement: the filtered-out parameters are dropped" % q, loc(prog, first_node)))
             else:
-                rep.holds("ORDER", "%s: name-only partition with its complement consumed" % q, loc(prog, filters[0][1]), "")
+                rep.holds("ORDER", "%s: name-only partition with its complement consumed" % q, loc(prog, first_node), "")
         if n_seq == 0:
             raise AnalysisError("ORDER: no per-parameter sequence recognised in %s" % q)
 
 
 def self_check(prog, rep, fi, q, fe, at, ctor, slot_of, how):
-    ok, why = _never_none(prog, fe, at)
+    ok, why = (True, "") if isinstance(fe, (ast.ListComp, ast.GeneratorExp)) else _never_none(prog, fe, at)
     inst = "%s: %s(%s)" % (q, how, src(fe, 40))
     if ok is False:
         rep.violation(Finding("ORDER", q, "element-may-be-None:%s" % src(fe, 40),
                               "the per-parameter element function can return None (%s): the parameter is dropped by the enclosing filter(None, ...) or breaks the emitted list" % why, loc(prog, at)))
         return
     # name slot
+    if isinstance(fe, (ast.ListComp, ast.GeneratorExp)):
+        tgt = fe.generators[0].target
+        keyvars = {tgt.elts[0].id} if isinstance(tgt, ast.Tuple) and tgt.elts and isinstance(tgt.elts[0], ast.Name) else set()
+        pvar = tgt.id if isinstance(tgt, ast.Name) else None
+        elt = fe.elt
+        if isinstance(elt, ast.Call) and not any(isinstance(c, ast.Call) and (c.func.id if isinstance(c.func, ast.Name) else getattr(c.func, "attr", "")) == ctor for c in ast.walk(elt)):
+            # [f(param) for param in items]: judge f
+            inner = [t for t in prog.resolve_expr_fn(elt.func, at) if isinstance(t, FunctionInfo)]
+            if len(inner) == 1 and len(elt.args) >= 1:
+                ok2, why2 = _never_none(prog, elt.func, at)
+                if ok2 is False:
+                    rep.violation(Finding("ORDER", q, "element-may-be-None:%s" % src(elt.func, 40), "the per-parameter element function can return None (%s)" % why2, loc(prog, at)))
+                    return
+                n, probs = _slot_ok_fn(prog, inner[0], ctor, slot_of)
+                if probs:
+                    rep.violation(Finding("ORDER", q, "name-slot:%s" % src(elt.func, 40), "; ".join(sorted(set(probs))), loc(prog, at)))
+                elif n:
+                    rep.holds("ORDER", inst, loc(prog, at), "one element per parameter, never None, %d construction(s) named by the key" % n)
+                else:
+                    rep.ob("ORDER", inst, "unresolved", loc(prog, at), "no %s(...) construction found" % ctor)
+                return
+        cs = [c for c in ast.walk(elt) if isinstance(c, ast.Call) and (c.func.id if isinstance(c.func, ast.Name) else getattr(c.func, "attr", "")) == ctor]
+        probs = []
+        for c in cs:
+            slot = slot_of(c)
+            okslot = slot is not None and ((names_in(slot) & keyvars) or (pvar and any(isinstance(x, ast.Subscript) and isinstance(x.value, ast.Name) and x.value.id == pvar
+                                                                                       and isinstance(x.slice, ast.Constant) and x.slice.value == 0 for x in ast.walk(slot))))
+            if not okslot:
+                probs.append("%s(...) is named by %s" % (ctor, src(slot, 40) if slot is not None else "?"))
+        n = len(cs)
+        if isinstance(elt, ast.Constant) and elt.value is None:
+            probs.append("the element is None")
+        if probs:
+            rep.violation(Finding("ORDER", q, "name-slot:%s" % src(fe, 40), "; ".join(sorted(set(probs))), loc(prog, at)))
+        elif n == 0:
+            rep.holds("ORDER", inst, loc(prog, at), "one unnamed value per parameter (positional alignment with the named sequence is ALIGN-emit's obligation)")
+        else:
+            rep.holds("ORDER", inst, loc(prog, at), "one element per parameter, %d construction(s) named by the key" % n)
+        return
     if isinstance(fe, ast.Lambda):
         p = fe.args.args[0].arg
         cs = [c for c in ast.walk(fe.body) if isinstance(c, ast.Call) and (c.func.id if isinstance(c.func, ast.Name) else getattr(c.func, "attr", "")) == ctor]
@@ -358,18 +452,28 @@ def rule_allpair(prog, rep, tier, anchor="gen.gen"):
     apps = [c for c in appends if c.func.value.id == lst]
     # exactly one append, inside the per-entry generator, with the same expression that names the definition
     gens = [g for g in ast.walk(fi.node) if isinstance(g, (ast.GeneratorExp, ast.ListComp)) and any(a in list(ast.walk(g)) for a in apps)]
-    if len(apps) != 1 or not gens:
+    loops = [l for l in ast.walk(fi.node) if isinstance(l, ast.For) and any(a in list(ast.walk(l)) for a in apps)]
+    if len(apps) != 1 or not (gens or loops):
         rep.violation(Finding("ALL-PAIR", anchor, "append-count", "%d appends to %s (expected exactly one, inside the per-entry element)" % (len(apps), lst), loc(prog, apps[0] if apps else ac)))
         return
-    g = gens[0]
-    if any(gg.ifs for gg in g.generators):
-        rep.violation(Finding("ALL-PAIR", anchor, "entry-filter", "the per-entry generator has a condition: entries can be skipped", loc(prog, g)))
     app = apps[0]
+    if gens:
+        g = gens[0]
+        if any(gg.ifs for gg in g.generators):
+            rep.violation(Finding("ALL-PAIR", anchor, "entry-filter", "the per-entry generator has a condition: entries can be skipped", loc(prog, g)))
+        elt_root = g.elt
+    else:
+        g = loops[-1]  # innermost loop containing the append
+        # the append must run on every iteration: not nested under a condition / continue inside the loop body
+        from sa.cfg import expr_guards as _eg
+        if _eg(app, stop=g):
+            rep.violation(Finding("ALL-PAIR", anchor, "entry-filter", "the per-entry append is conditional: entries can be skipped in __all__", loc(prog, app)))
+        elt_root = g
     name_expr = dump(app.args[0])
     # the expression the emitted definition is named by: values of the `*_name` keys handed to the emitter; when the
     # value is a lambda parameter, the argument the lambda is applied to
     naming = []
-    for d in ast.walk(g.elt):
+    for d in ast.walk(elt_root):
         if isinstance(d, ast.Dict):
             for k, v in zip(d.keys, d.values):
                 if isinstance(k, ast.Constant) and isinstance(k.value, str) and k.value.endswith("_name"):
@@ -398,6 +502,8 @@ def rule_allpair(prog, rep, tier, anchor="gen.gen"):
             fmt = p
             break
         p = p._parent
+    if fmt is not None and isinstance(g, ast.For):
+        fmt = None
     if fmt is not None:
         order = []
         for k in fmt.keywords:
